@@ -143,7 +143,20 @@ def judge(ctx, cases_sites, timeout=3000):
     progs = [program(c, s) for c, s in cases_sites]
     outs = common.replay_batch([{"op": "check", "src": p[0]} for p in progs], timeout=timeout)
     st = {"accepted": 0, "rejected": 0, "agree": 0}
+    # A type whose producer function `def mk_T() -> T: return <literal of T>` the checker itself rejects (nested Ok / Err
+    # literals) cannot be used as a witness of anything: every program that declares mk_T is rejected for that reason.
+    # Found from the exact twins (function-result form, same type on both sides); the cases that mention such a type are skipped.
+    unusable = set()
+    for (c, s), o in zip(cases_sites, outs):
+        if c["form"] == "call" and c["a"] == c["b"] and not o.get("obs", {}).get("ok") and o.get("obs", {}).get("stage") == "check":
+            unusable.add(ty_text(c["a"]))
+    st["types_without_a_usable_literal_producer"] = sorted(unusable)
+    if len(unusable) > max(3, len({ty_text(c["a"]) for c, _ in cases_sites}) // 4):
+        raise ToolError(f"typeflow: too many types whose producer function is rejected ({len(unusable)}): {sorted(unusable)[:5]}")
     for (c, s), (src, line), o in zip(cases_sites, progs, outs):
+        if ty_text(c["a"]) in unusable or ty_text(c["b"]) in unusable:
+            st["skipped_unusable_type"] = st.get("skipped_unusable_type", 0) + 1
+            continue
         ob = o.get("obs", {})
         tg = tags(c, s)
         payload = {"a": ty_text(c["a"]), "b": ty_text(c["b"]), "form": c["form"], "site": s, "src": src, "line": line}
